@@ -1,5 +1,5 @@
 """C18 — formatted output and input: correspondence cases."""
-import os, sys, itertools
+import re, os, sys, itertools
 from gen import *
 import vlib
 
@@ -89,6 +89,21 @@ def cases(ctx, tier):
             t += str(rng.choice([0, 5, -7, 10 ** 25, -(10 ** 30) - 1, rng.getrandbits(70)])).encode()
         t += rng.choice([b'', b'', b' ', b'\n', b' x', b'x', b' -x', b' .5'])
         out.append(('gmp_scan_partial %d %s' % (rng.getrandbits(1), hb(t)), 'scan-count'))
+    # the as-coded model of doscan.c: every curated (directive, input) pair and random multi-directive formats, through the string
+    # reader (final position observed) and through gmp_fscanf on a stream (position by ftell: every look-ahead byte pushed back)
+    import scangen
+    seen = set()
+    for fm, inp, sl in scangen.gen_tests(ctx.rng('doscan'), 1500 if quick else 20000):
+        if len(fm) > 2000 or len(inp) > 2000 or 0 in fm: continue
+        for mode in (0, 1):
+            if mode == 1 and (0 in inp or not inp): continue
+            # a standard conversion is handed to the C library, which reads the stream itself: where it stops after a failed
+            # match is the C library's business; the stream position is compared for formats of MPIR conversions and literals only
+            if mode == 1 and re.search(rb'%[*0-9]*l?d', fm): continue
+            ln = 'gmp_doscan %s %s %s %d' % (hb(fm), hb(inp), hb(sl.encode()), mode)
+            if ln in seen: continue
+            seen.add(ln)
+            out.append((ln, 'doscan-string' if mode == 0 else 'doscan-stream'))
     return out
 
 # ---- %Fe / %Ff through a certificate evaluated by the model ----
